@@ -1,5 +1,234 @@
-import RSocketModel.Engine.Step
-/-! # C07 — placeholder until the invariant proofs land (see Props/C07 in a later commit) -/
+import RSocketModel.Engine.Grammar
+/-!
+# C07 — Every interaction terminates at most once at the API
+
+Engine model (`Engine/Step.lean`), every event sequence (local API calls, application publisher /
+future signals, received frames of any kind — legal or not —, done-callbacks in any order,
+connection loss at any point, `stop_all_streams`), every application object.
+
+`monitor oid` (in `Engine/Grammar.lean`) is the grammar of the statement as an automaton over the
+outputs addressed to object `oid`:
+
+    idle --on_subscribe--> active --on_next(not complete)*--> active
+    active --on_next(complete) | on_complete | on_error--> done
+    idle --future result | future error--> done            (request-response awaitable)
+    anything else addressed to the object as a signal: violation (`none`)
+
+`c07_grammar` is the full statement; the theorems after it restate its consequences without the
+automaton.
+-/
 namespace RSocketModel.Engine
-theorem c07_placeholder : (init 1).closed = false := rfl
+
+/-- **the signals every application object receives follow the grammar**, over any run from the
+initial state of either role -/
+theorem c07_grammar (first : Nat) (lp : Bool) (evs : List Ev) (oid : Nat) :
+    ∃ p, monitor oid .idle (run (init first lp) evs).2.flatten = some p := by
+  obtain ⟨p, hp, _⟩ := run_good evs (init first lp) (wf_init first lp) oid .idle (by
+    intro s hs; simp [State.obj, init] at hs)
+  exact ⟨p, hp⟩
+
+/-- … and from any well-formed state in which the object has reached phase `p` -/
+theorem c07_grammar_from (st : State) (h : WF st) (evs : List Ev) (oid : Nat) (p : Phase) (hr : Rel p st oid) :
+    ∃ p', monitor oid p (run st evs).2.flatten = some p' :=
+  let ⟨p', hp', _⟩ := run_good evs st h oid p hr; ⟨p', hp'⟩
+
+/-! ### what acceptance by the monitor means, without the automaton -/
+
+theorem feed_terminal (p q : Phase) (x : Out) (ht : x.isTerminal = true) (h : p.feed x = some q) : q = .done ∧ p ≠ .done := by
+  cases x <;> simp [Out.isTerminal] at ht <;> cases p <;> simp [Phase.feed] at h <;> simp_all
+  all_goals (subst_vars; first | simp | (split <;> simp))
+
+theorem feed_not_active (p p' : Phase) (x : Out) (hp : p ≠ .active) (hx : ∀ o, x ≠ .onSubscribe o) (hf : p.feed x = some p') :
+    p' ≠ .active := by
+  cases x <;> cases p <;> simp_all [Phase.feed]
+  all_goals (subst_vars; first | simp | (split <;> simp))
+
+theorem feed_not_idle (p p' : Phase) (x : Out) (hp : p ≠ .idle) (hf : p.feed x = some p') : p' ≠ .idle := by
+  cases x <;> cases p <;> simp_all [Phase.feed]
+  all_goals (subst_vars; first | simp | (split <;> simp))
+
+theorem monitor_not_idle (oid : Nat) (l : List Out) : ∀ (p : Phase), p ≠ .idle → monitor oid p l ≠ some .idle := by
+  induction l with
+  | nil => intro p hp h; simp only [monitor, Option.some.injEq] at h; exact hp h
+  | cons y ys ih =>
+    intro p hp h
+    simp only [monitor] at h
+    split at h
+    · split at h
+      · rename_i p' hf
+        exact ih p' (feed_not_idle p p' y hp hf) h
+      · cases h
+    · exact ih p hp h
+
+theorem feed_done (q : Phase) (x : Out) (h : Phase.feed .done x = some q) :
+    q = .done ∧ x.isSignal = false ∧ (∀ o, x ≠ .onSubscribe o) := by
+  cases x <;> simp_all [Phase.feed, Out.isSignal]
+
+theorem monitor_done (oid : Nat) (l : List Out) (q : Phase) (h : monitor oid .done l = some q) :
+    ∀ y ∈ l, y.target = some oid → y.isSignal = false ∧ y ≠ .onSubscribe oid := by
+  induction l with
+  | nil => intro y hy; simp at hy
+  | cons x xs ih =>
+    intro y hy ht
+    simp only [monitor] at h
+    split at h
+    · split at h
+      · rename_i p' hf
+        obtain ⟨rfl, h1, h2⟩ := feed_done p' x hf
+        simp only [List.mem_cons] at hy
+        rcases hy with rfl | hy
+        · exact ⟨h1, h2 oid⟩
+        · exact ih h y hy ht
+      · cases h
+    · rename_i hx
+      simp only [List.mem_cons] at hy
+      rcases hy with rfl | hy
+      · exact absurd ht hx
+      · exact ih h y hy ht
+
+theorem monitor_split (oid : Nat) (a : List Out) (x : Out) (b : List Out) (p q : Phase)
+    (h : monitor oid p (a ++ x :: b) = some q) (ht : x.target = some oid) :
+    ∃ p1 p2, monitor oid p a = some p1 ∧ p1.feed x = some p2 ∧ monitor oid p2 b = some q := by
+  rw [monitor_append] at h
+  cases h1 : monitor oid p a with
+  | none => simp [h1] at h
+  | some p1 =>
+    simp only [h1, monitor, ht, if_true] at h
+    cases h2 : p1.feed x with
+    | none => simp [h2] at h
+    | some p2 => simp only [h2] at h; exact ⟨p1, p2, rfl, h2, h⟩
+
+/-- **nothing after the terminal signal**: once an object has received a completion, an error, an
+element flagged complete or a future resolution, no later output of the run is a signal (or a
+second `on_subscribe`) for that object -/
+theorem c07_nothing_after_terminal (first : Nat) (lp : Bool) (evs : List Ev) (oid : Nat) (a b : List Out) (x : Out)
+    (hsplit : (run (init first lp) evs).2.flatten = a ++ x :: b) (ht : x.target = some oid) (hterm : x.isTerminal = true) :
+    ∀ y ∈ b, y.target = some oid → y.isSignal = false ∧ y ≠ .onSubscribe oid := by
+  obtain ⟨q, hq⟩ := c07_grammar first lp evs oid
+  rw [hsplit] at hq
+  obtain ⟨p1, p2, _, h2, h3⟩ := monitor_split oid a x b .idle q hq ht
+  obtain ⟨rfl, _⟩ := feed_terminal p1 p2 x hterm h2
+  exact monitor_done oid b q h3
+
+/-- the monitor reaches `active` only through `on_subscribe` -/
+theorem monitor_active (oid : Nat) (l : List Out) : ∀ p, p ≠ .active → monitor oid p l = some .active →
+    .onSubscribe oid ∈ l := by
+  induction l with
+  | nil => intro p hp h; simp only [monitor, Option.some.injEq] at h; exact absurd h hp
+  | cons x xs ih =>
+    intro p hp h
+    simp only [monitor] at h
+    split at h
+    · rename_i ht
+      split at h
+      · rename_i p' hf
+        by_cases hx : x = .onSubscribe oid
+        · simp [hx]
+        · have hx' : ∀ o, x ≠ .onSubscribe o := by
+            intro o e; subst e
+            simp only [Out.target, Option.some.injEq] at ht
+            subst ht; exact hx rfl
+          exact List.mem_cons_of_mem _ (ih p' (feed_not_active p p' x hp hx' hf) h)
+      · cases h
+    · exact List.mem_cons_of_mem _ (ih p hp h)
+
+/-- **`on_subscribe` first**: every element, completion or error a subscriber receives is
+preceded by that subscriber's `on_subscribe` -/
+theorem c07_on_subscribe_first (first : Nat) (lp : Bool) (evs : List Ev) (oid : Nat) (a b : List Out) (x : Out)
+    (hsplit : (run (init first lp) evs).2.flatten = a ++ x :: b)
+    (hx : (∃ d c, x = .onNext oid d c) ∨ x = .onComplete oid ∨ ∃ c, x = .onError oid c) :
+    .onSubscribe oid ∈ a := by
+  obtain ⟨q, hq⟩ := c07_grammar first lp evs oid
+  rw [hsplit] at hq
+  have ht : x.target = some oid := by
+    rcases hx with ⟨d, c, rfl⟩ | rfl | ⟨c, rfl⟩ <;> rfl
+  obtain ⟨p1, p2, h1, h2, _⟩ := monitor_split oid a x b .idle q hq ht
+  have : p1 = .active := by
+    rcases hx with ⟨d, c, rfl⟩ | rfl | ⟨c, rfl⟩ <;> simp only [Phase.feed] at h2 <;> split at h2 <;> simp_all
+  subst this
+  exact monitor_active oid a .idle (by simp) h1
+
+/-- **`on_subscribe` once** -/
+theorem c07_on_subscribe_once (first : Nat) (lp : Bool) (evs : List Ev) (oid : Nat) (a b : List Out)
+    (hsplit : (run (init first lp) evs).2.flatten = a ++ .onSubscribe oid :: b) :
+    .onSubscribe oid ∉ a ∧ .onSubscribe oid ∉ b := by
+  obtain ⟨q, hq⟩ := c07_grammar first lp evs oid
+  rw [hsplit] at hq
+  obtain ⟨p1, p2, h1, h2, h3⟩ := monitor_split oid a (.onSubscribe oid) b .idle q hq rfl
+  have hp1 : p1 = .idle ∧ p2 = .active := by
+    simp only [Phase.feed] at h2; split at h2 <;> simp_all
+  obtain ⟨rfl, rfl⟩ := hp1
+  constructor
+  · intro hin
+    obtain ⟨a1, a2, rfl⟩ := List.append_of_mem hin
+    obtain ⟨q1, q2, _, g2, g3⟩ := monitor_split oid a1 (.onSubscribe oid) a2 .idle .idle h1 rfl
+    have : q2 = .active := by simp only [Phase.feed] at g2; split at g2 <;> simp_all
+    subst this
+    exact monitor_not_idle oid a2 .active (by simp) g3
+  · intro hin
+    obtain ⟨b1, b2, rfl⟩ := List.append_of_mem hin
+    obtain ⟨q1, q2, g1, g2, _⟩ := monitor_split oid b1 (.onSubscribe oid) b2 .active q h3 rfl
+    have : q1 = .idle := by simp only [Phase.feed] at g2; split at g2 <;> simp_all
+    subst this
+    exact monitor_not_idle oid b1 .active (by simp) g1
+
+/-- **at most one terminal signal**: a request-response awaitable is resolved by the library at
+most once; a subscriber receives at most one of completion / error / element flagged complete -/
+theorem c07_at_most_one_terminal (first : Nat) (lp : Bool) (evs : List Ev) (oid : Nat) (a b : List Out) (x : Out)
+    (hsplit : (run (init first lp) evs).2.flatten = a ++ x :: b) (ht : x.target = some oid) (hterm : x.isTerminal = true) :
+    (∀ y ∈ a, y.target = some oid → y.isTerminal = false) ∧ (∀ y ∈ b, y.target = some oid → y.isTerminal = false) := by
+  have hsig : ∀ y : Out, y.isSignal = false → y.isTerminal = false := by
+    intro y; cases y <;> simp [Out.isSignal, Out.isTerminal]
+  constructor
+  · intro y hy hty
+    obtain ⟨a1, a2, rfl⟩ := List.append_of_mem hy
+    cases hyt : y.isTerminal with
+    | false => rfl
+    | true =>
+      have := c07_nothing_after_terminal first lp evs oid a1 (a2 ++ x :: b) y (by rw [hsplit]; simp) hty hyt x (by simp) ht
+      have := hsig x this.1
+      rw [hterm] at this; cases this
+  · intro y hy hty
+    exact hsig y (c07_nothing_after_terminal first lp evs oid a b x hsplit ht hterm y hy hty).1
+
+/-- **a cancelled awaitable stays cancelled**: after the caller cancels a pending request-response
+(a resolution by cancellation), no result or error is ever set on it -/
+theorem c07_cancelled_future_not_resolved (st : State) (h : WF st) (oid : Nat) (s : Stream) (ho : st.obj oid = some s)
+    (hk : s.kind = .rrReq) (hf : s.fut = .pending) (evs : List Ev) :
+    ∀ y ∈ (run (step st (.futCancel oid)).1 evs).2.flatten, y.target = some oid → y.isSignal = false := by
+  have hs : Silent (step st (.futCancel oid)).1 oid := by
+    simp only [step, apiStep, ho, hk, hf]
+    exact silent_rr _ oid _ (obj_setObj_self st oid s _ ho) rfl (by simp)
+  have hw := wf_step st h (.futCancel oid)
+  generalize (step st (.futCancel oid)).1 = st1 at hs hw
+  induction evs generalizing st1 with
+  | nil => intro y hy; simp [run] at hy
+  | cons ev es ih =>
+    intro y hy ht
+    simp only [run, List.flatten_cons, List.mem_append] at hy
+    rcases hy with hy | hy
+    · exact silent_no_signal st1 hw oid hs ev y hy ht
+    · exact ih _ (silent_persists st1 _ (ext_step st1 ev) oid hs) (wf_step st1 hw ev) y hy ht
+
+/-- **a pending awaitable is resolved when the connection is lost** (the "at least once" half on
+the only path the library controls) -/
+theorem c07_pending_future_resolved_on_loss (st : State) (h : WF st) (hc : st.closed = false) (sid oid : Nat) (s : Stream)
+    (hm : (sid, oid) ∈ st.table) (ho : st.obj oid = some s) (hk : s.kind = .rrReq) (hf : s.fut = .pending) :
+    Out.futError oid cConnectionError ∈ (step st .lost).2 :=
+  c11_pending_request_response_failed st h hc sid oid s hm ho hk hf
+
+end RSocketModel.Engine
+
+namespace RSocketModel.Engine
+
+/-! ### non-vacuity: the monitor rejects bad sequences, and a real run reaches `done` -/
+
+example : monitor 0 .idle [.onSubscribe 0, .onComplete 0, .onError 0 1] = none := by decide
+example : monitor 0 .idle [.onNext 0 [1] false] = none := by decide
+example : monitor 0 .idle [.futResult 0 [1], .futError 0 1] = none := by decide
+example : monitor 0 .idle (run (init 1) [.requestStream [1] 5 true,
+    .recv { ty := .payload, sid := 1, data := [7], next := true } .ok,
+    .recv { ty := .payload, sid := 1, data := [8], next := true, complete := true } .ok, .lost]).2.flatten = some .done := by
+  decide +kernel
+
 end RSocketModel.Engine
